@@ -223,6 +223,11 @@ fn gen_arg(g: &mut G, macros: &[Macro], depth: u32) -> String {
         let d = 3 + g.below(2);
         return format!("{}uc2+{}{}", "(".repeat(d), g.below(5), ")".repeat(d));
     }
+    if g.chance(1, 10) {
+        // a character constant: hidden while the macros are replaced, then put back wherever the
+        // parameter was used
+        return (*g.pick(&["'q'", "'7'", "'Z'", "' '"])).to_string();
+    }
     match g.below(if depth > 0 { 7 } else { 3 }) {
         0 => format!("{}", g.below(9)),
         1 => "uc2".to_string(),
